@@ -49,7 +49,7 @@ def prop_C10(run):
     run.check(len(roots) == len(ROOTS), "ROOTS", "ROOTS|entry-points", "-", "entry points found: %s" % roots,
               "entry points missing: %s" % sorted(set(ROOTS) - set(roots)))
     n1 = rules_det.det1(run)
-    run.floor("DET1", "hash-iteration sites", n1, 4)
+    run.floor("DET1", "hash-iteration sites", n1, 3)   # 4 on the pinned tree; two sibling loops may be folded into one generic helper
     rules_det.det2(run, roots)
     rules_det.det3(run)
     n4 = rules_det.det4(run)
